@@ -12,6 +12,7 @@ from dalimc.env import device103 as D
 from dalimc.env.gear102 import run_sequence
 
 ID = "C13"
+OPTIMISED_STRIDE = {"quick": 8, "thorough": 16}      # every k-th shard once more in an interpreter started with -O
 LEVEL = "model_checking"
 ENGINE = "E2"
 TECHNIQUE = "stateless exploration of the real control-device generators against a spec model of IEC 62386-103 devices: inputs enumerated over stated domains, answer faults deviation-bounded at every step"
